@@ -473,6 +473,7 @@ def run(ctx):
                     # fails inside the Line constructor (decided by
                     # C13.version_tables / C13.line_version)
                     made["kwargs"] = kwargs
+                    made["text"] = text
                     made["line"] = mk_line(rt, lv, vn)
                     return made["line"]
                 gh = GfaHooks(repo, factory)
@@ -519,6 +520,21 @@ def run(ctx):
                     ok = made["kwargs"].get("version") == ver
                 if ok and as_string and rt == "S" and "kwargs" in made:
                     ok = made["kwargs"].get("version") is None
+                if ok and as_string and rt == "#" and "text" in made and \
+                        made["text"] != arg and \
+                        list(made["text"]) != ["#", "x", "\t"]:
+                    # (the list form of this comment: content, then spacer)
+                    # a comment is not tab-separated: only the constructor's
+                    # own reading of the *text* (Line._init_comment_data)
+                    # keeps tabs inside the comment where they are
+                    ok = False
+                    ctx.violation(R, f.short, cell + ",constructor-argument",
+                                  "the text of a comment reaches Line() as "
+                                  "%r instead of the string %r: a tab in a "
+                                  "comment would split it into fields" % (
+                                      made["text"], arg))
+                    ctx.oblige(False)
+                    continue
                 ctx.oblige(ok)
                 if not ok:
                     ctx.violation(R, f.short, cell,
